@@ -95,9 +95,12 @@ def case(g, tier, ci):
         ops.append({"op": "tl.linvary", "base": "e", "to": "tv", "ch": 1, "name": n0, "arg": 0, "start": q(0), "stop": q(1), "step": q(0.5)})
         objs.append(("sq", "tv"))
     elif tool < 0.85 and not have_sub:
+        zero_steps = N % 4 == 0       # a sweep over zero values: the (empty) result must still be independent of `s`
         ops.append({"op": "tl.repvary", "seq": "s", "to": "tv", "lens": [1, 1, 1, 1, 1], "poss": [1],
-                    "vars": [{"chan": 1, "name": n0, "arg": 0, "vals": [enc(0.25), enc(0.5)]}]})
+                    "vars": [{"chan": 1, "name": n0, "arg": 0, "vals": [] if zero_steps else [enc(0.25), enc(0.5)]}]})
         objs.append(("sq", "tv"))
+        forced = [{"op": "sq.setAmp", "id": "tv", "ch": 1, "v": enc(7.5)}, {"op": "sq.setSR", "id": "tv", "v": enc(SR * 4)}] if zero_steps else []
+    forced = locals().get("forced", [])
     watch = list(objs)
     if N % 3 == 0:
         # a waituntil inserted under a user-chosen name: copy() / addBluePrint store it under the protected
@@ -172,6 +175,10 @@ def case(g, tier, ci):
         m["_mut"] = oid
         m["_step"] = step
         ops.append(m)
+        ops += [{**o, "_step": step} for o in snap(watch)]
+    for m in forced:
+        step += 1
+        ops.append({**m, "_mut": m["id"], "_step": step})
         ops += [{**o, "_step": step} for o in snap(watch)]
     return ops
 
